@@ -17,11 +17,64 @@ EXPL = (
     "next byte at m==0 (no time consumed fetching it), end of block -> toggle, 3,500,000 T pause, next block; end of tape -> "
     "Stop + rewind.  Guard: while delay > 0 nothing but the countdown happens and the countdown stores only 0 (clocks > "
     "delay) or delay - clocks, so no pulse is shorter than nominal; a stopped deck changes nothing.  With C05 (the whole "
-    "clk of every wait reaches process_clocks) and C07 (EAR -> bit 6).  NOT decided: the upper jitter bound (<= 32 T for steps "
-    "<= 16 T is implied by the countdown form but not claimed) and equivalence with fast loading."
+    "clk of every wait reaches process_clocks) and C07 (EAR -> bit 6).  Upper jitter bound: the largest step passed to "
+    "process_clocks over every call site of the workspace (constants of the CPU's bus calls, the contention table "
+    "maximum, sums of the two; T-BOUND) is S = 8, and by the countdown form a pulse lasts at most nominal + 2S - 1 <= "
+    "nominal + 32.  NOT decided: equivalence of real-time loading with fast loading (whole-program)."
 )
 
 PILOT, HDR, DATA, S1, S2, ONE, ZERO, PAUSE = 2168, 8063, 3223, 667, 735, 1710, 855, 3500000
+
+
+MAX_EXTRA = 32      # the statement: no pulse more than 32 T-states longer than nominal
+
+
+def step_bound(chk, prog):
+    """upper jitter bound.  A pulse of nominal length N starts at the call that runs the state machine (edge at that
+    call's time) and ends at the first call entered with delay == 0; the calls in between count N down and the one that
+    reaches 0 may overshoot by at most (its step - 1) (countdown rule above), after which exactly one more call passes
+    before the state machine runs again (table rows: every state acts at delay == 0).  With S the largest step ever
+    passed to Tap::process_clocks the pulse therefore lasts at most N + (S - 1) + S.  S is bounded over every call
+    site of the whole workspace (T-BOUND, rules/argbound.py)."""
+    from . import argbound
+    names = cc.Names(prog)
+    cg, fa = cc.scans(prog)
+    chk.rule("T-BOUND", "largest step ever passed to Tap::process_clocks, over all call sites of the workspace: pulse <= nominal + 2*step - 1 <= nominal + 32")
+    CCP = prog.fn_path("rustzx_core", "ZXMachine::contention_clocks")
+
+    def ret_bound(path):
+        if path != CCP:
+            return None
+        best = -1
+        for m in names.machine_variants():
+            w = Walker(prog)
+            rs = w.run(prog.fn(CCP), [cc.machine_value(prog, names, m), tm.sym("T", 64)], genv={})
+            if not rs:
+                return None
+            for r in rs:
+                if r.outcome != "return" or not isinstance(r.ret, T):
+                    return None
+                best = max(best, tm.urange(r.ret)[1])
+        return best
+    ab = argbound.ArgBound(prog, cg, ret_bound)
+    tp = [p for p in prog.fns if p.endswith("::process_clocks") and "::tap::Tap<" in p]
+    key = "T-BOUND/Tap::process_clocks/step"
+    if len(tp) != 1:
+        chk.undecided_(key + "/anchor", "Tap's process_clocks not unique: %s" % tp)
+        return
+    S = ab.param(tp[0], 1)
+    chain = [v for k, v in ab.why.items() if k[0] == tp[0]]
+    if not isinstance(S, int):
+        chk.fail(key, "the step passed to Tap::process_clocks is not bounded: %s" % "; ".join(
+            v for v in ab.why.values() if "not bounded" in v or "outside" in v or "value" in v or "no call" in v)[:600])
+        return
+    chk.check(2 * S - 1 <= MAX_EXTRA, key,
+              "a single step of up to %d T-states reaches the tape (%s): a pulse can be %d T-states longer than nominal, the statement allows %d" % (
+                  S, "; ".join(chain), 2 * S - 1, MAX_EXTRA))
+    chk.count("step-call-sites", ab.sites)
+    chk.floor("step-call-sites", 60)
+    chk.sample({"largest_step": S, "pulse_excess_at_most": 2 * S - 1,
+                "maximal_sites": dict(("::".join(k[0].replace("<", "").replace(">", "").split("::")[-2:]) + "#%d" % k[1], v) for k, v in ab.why.items())})
 
 
 def run(chk):
@@ -175,6 +228,7 @@ def run(chk):
     chk.floor("table-rows", 18)
     chk.floor("countdown-paths", 7)
     chk.sample({"pulse_lengths": {"pilot": PILOT, "sync": [S1, S2], "bit0": ZERO, "bit1": ONE, "pause": PAUSE}, "rows": rows})
+    step_bound(chk, prog)
     # block framing / window invariant of the TAP reader (shared rule, rules/tapeinv.py)
     from . import tapeinv
     chk.rule("T-INV", "Tap window invariant: inductive over every writer and every exit; asserts and bounds implied; headers read only at block ends")
